@@ -54,6 +54,10 @@ type observed struct {
 	// reads of a readx item made because the child was seen blocked writing
 	wblockHits int
 	napBehind  int64 // bytes the child had written but the consumer not yet read when its nap began (-1: no nap)
+
+	// family famNoStart
+	noStart bool // a run of that family
+	started bool // Go has returned and the exec.Cmd has a process all the same
 }
 
 type runner struct {
@@ -71,6 +75,10 @@ type runner struct {
 	inGate    atomic.Bool
 	inputDone atomic.Bool
 	goDone    chan struct{}
+	// consReading: the consumer is inside a Read of the output stream (set
+	// just before the call, cleared when it has returned)
+	consReading atomic.Bool
+	goGate      atomic.Bool // famNoStart: the caller of Go waits for the consumer to be reading
 
 	// strictInput: the input counts as over only when all of it has been
 	// handed over (GoSimple family: the input side writes, it is not read).
@@ -391,6 +399,9 @@ func runPlan(pl *plan, dir string, stuckCap time.Duration) *observed {
 	if pl.cfg.Fam == famGoSimple {
 		return runPlanGS(pl, dir, stuckCap)
 	}
+	if pl.cfg.Fam == famNoStart {
+		return runPlanNoStart(pl, dir, stuckCap)
+	}
 	ob := &observed{}
 	self, err := os.Executable()
 	if err != nil {
@@ -439,7 +450,9 @@ func (r *runner) consume(ob *observed, rd func([]byte) (int, error)) {
 	pl := r.pl
 	buf := make([]byte, maxChunk)
 	read := func(sz int) bool {
+		r.consReading.Store(true)
 		n, err := rd(buf[:sz])
+		r.consReading.Store(false)
 		if n > 0 {
 			ob.account(buf[:n])
 			r.noteConsumed(n)
@@ -569,6 +582,10 @@ func (r *runner) supervise(ob *observed, consDone chan struct{}, stuckCap time.D
 // cannot be the harness's own gates waiting for each other become findings;
 // anything else is a harness error.
 func (r *runner) judgeStuck(ob *observed, consDone, goDone bool) {
+	if r.pl.cfg.Fam == famNoStart {
+		r.judgeStuckNoStart(ob, consDone, goDone)
+		return
+	}
 	exited := r.childExited()
 	gate, _ := r.consGate.Load().(string)
 	step, kind := -1, ""
